@@ -39,6 +39,8 @@ pub fn scenarios(tier: &str) -> Vec<Scenario> {
     // highest-block mark kept across clearCaches and restarts)
     let edge = vec![
         m_block("B(set0=1)", vec![s_set(0, 0, 1)]),
+        m_deploy_x_first(),
+        m_deploy_x_second(),
         m_block("B(set0=2)", vec![s_set(0, 0, 2)]),
         m_mine(1),
         m_mine(W - 1),
